@@ -36,6 +36,10 @@ def install(I):
             return len(x)
         if isinstance(x, Arr):
             return x.length
+        if type(x).__name__ == "MaskSel":
+            from .npmodel import reduce_sum
+
+            return reduce_sum(ctx, ops.arr_map(lambda m: ops.ite(I.truth(m), 1, 0), x.mask, dtype="int"))
         if isinstance(x, Arr2):
             return len(x.rows)
         if isinstance(x, OpenDict):
@@ -160,6 +164,11 @@ def install(I):
 
     @native("sum")
     def _sum(ctx, it, start=0):
+        if type(it).__name__ == "MaskSel":
+            from .npmodel import reduce_sum
+
+            r = reduce_sum(ctx, it)
+            return r if start == 0 else I.binop("+", start, r)
         if isinstance(it, Arr) and not it.concrete_len():
             from .npmodel import sym_sum
 
@@ -762,7 +771,12 @@ def seq_getitem(I, obj, key):
             base = snap
             return Arr(ln, fn=lambda i, lo=lo, snap=snap: fn(i, lo, snap), dtype=obj.dtype, is_nd=obj.is_nd)
         if isinstance(key, Arr) and key.dtype == "bool":
-            raise Unsupported("boolean mask indexing")
+            if not obj.is_nd:
+                raise PyRaise("TypeError", "only integer scalar arrays can be converted to a scalar index")
+            if not ops.same_length(obj, key):
+                raise Unsupported("boolean mask of another length")
+            from .values import MaskSel
+            return MaskSel(obj.copy(), key.copy())
         if isinstance(key, (Arr, list)):
             idxs = I.iterate(key)
             els = [obj.get(norm_index(I, k, obj.length)) for k in idxs]
